@@ -1,8 +1,9 @@
 #!/usr/bin/env python3
 """Prints the markdown table of independently seeded changes from /verif/seeded/*/meta.json."""
 import glob, json, os
+V = os.path.dirname(os.path.dirname(os.path.abspath(__file__)))  # the framework directory this tool belongs to (/verif, or a snapshot of it)
 rows = []
-for d in sorted(glob.glob('/verif/seeded/*')):
+for d in sorted(glob.glob(V + '/seeded/*')):
     if not os.path.exists(d + '/meta.json'):
         continue
     m = json.load(open(d + '/meta.json'))
